@@ -171,6 +171,15 @@ class XArray:
     # -- indexing -----------------------------------------------------------
     def _resolve_index(self, key):
         """Return (result_shape, list of flat offsets) for a numpy-style key."""
+        if isinstance(key, XArray) and key.data and all(isinstance(v, bool) for v in key.data) and key.ndim >= 1 and key.shape == self.shape[: key.ndim]:
+            # boolean mask over the leading axes: the positions where it holds, row-major
+            import itertools as _it
+
+            hits = [ix for ix, v in zip(_it.product(*[range(n) for n in key.shape]), key.data) if v]
+            key = tuple(XArray((len(hits),), [h[k] for h in hits]) for k in range(key.ndim))
+            if key[0].size == 0:
+                rest = self.shape[len(key):]
+                return (0,) + tuple(rest), []
         if not isinstance(key, tuple):
             key = (key,)
         key = list(key)
@@ -364,6 +373,8 @@ class XArray:
 
     def _check_kind(self, x):
         """an array of integer kind ("i": built from integer literals, arange, dtype=int) truncates what is stored into it"""
+        if self.dtype in ("f", "i") and type(x).__name__ == "Poly" and "__I__" in x.vars():
+            raise XTruncation(f"a complex value is stored into an array of {'float' if self.dtype == 'f' else 'integer'} type: numpy discards its imaginary part (ComplexWarning only)")
         definite = (isinstance(x, Fraction) and x.denominator != 1) or (type(x).__name__ == "MQ" and not (x.is_rational() and x.rational().denominator == 1))
         if self.dtype == "i" and definite:
             # (symbolic values are left alone: only a definite non-integer is a definite truncation)
@@ -477,6 +488,12 @@ class XArray:
 
     def __rtruediv__(self, o):
         return self._binop(o, lambda x, y: x / y, True)
+
+    def __mod__(self, o):
+        return self._binop(o, lambda x, y: x % y)
+
+    def __floordiv__(self, o):
+        return self._binop(o, lambda x, y: x // y)
 
     def __pow__(self, o):
         return self._binop(o, lambda x, y: x**y)
